@@ -116,6 +116,17 @@ func r06_1(c *Ctx, rule string) {
 			c.ObReachable(rule, base+"/id-counter/counts-non-files", lit, map[string]bool{x.KeyAtEntry(cl): false}, isStore, "the id increment", "the entry is not requestable (directory, link, device)")
 		}
 	}
+	// announce after publish: for a requestable entry the id is registered
+	// before the STAT that lets the receiver request it
+	if fcd := c.P.CallsTo(lit, "fsutil.fileCanRequestData"); len(fcd) > 0 {
+		as := map[string]bool{}
+		for _, call := range fcd {
+			if cl, ok := call.(*ssa.Call); ok {
+				as[x.KeyAtEntry(cl)] = true
+			}
+		}
+		c.ObPrecedes(rule, base+"/registered-before-announced", lit, as, func(in ssa.Instruction) bool { return in == ssa.Instruction(upd) }, func(in ssa.Instruction) bool { return c.statSend(in, true) }, "registering the id in sender.files", "sending the STAT of a requestable entry")
+	}
 	// pre-increment key
 	c.R.Check(!eng.Dominates(st, ld), rule, base+"/files-key-pre-increment", c.pos(upd), "the registered id is read before the increment", "the id registered in sender.files is read after the increment: every id is off by one")
 	c.R.Check(isFieldLoad(upd.Value, "types.Stat.Path"), rule, base+"/files-value", c.pos(upd), "the id maps to the stat's path", "sender.files does not map the id to the stat's path")
